@@ -441,13 +441,35 @@ bool Plan::RefreshDyndepDependents(DependencyScan* scan,
     if (!n->dirty())
       continue;
 
+    Edge* edge = n->in_edge();
+    assert(edge);
+    map<Edge*, Want>::iterator want_e = want_.find(edge);
+    assert(want_e != want_.end());
+
+    if (edge->outputs_ready()) {
+      // The node was marked dirty by a scan that lacked the dyndep information
+      // (e.g. its 'restat'); the re-scan with it found the edge clean, so the
+      // flag is stale.  Such an edge cannot have been started: its dyndep file
+      // was not ready.  Stop wanting it and clean the node just as a restat
+      // does, or the edge would run while its dependents, seeing its outputs
+      // ready, run at the same time.
+      if (want_e->second == kWantToStart) {
+        want_e->second = kWantNothing;
+        --wanted_edges_;
+        if (!edge->is_phony()) {
+          --command_edges_;
+          if (builder_)
+            builder_->status_->EdgeRemovedFromPlan(edge);
+        }
+      }
+      if (!CleanNode(scan, n, err))
+        return false;
+      continue;
+    }
+
     // This edge was encountered before.  However, we may not have wanted to
     // build it if the outputs were not known to be dirty.  With dyndep
     // information an output is now known to be dirty, so we want the edge.
-    Edge* edge = n->in_edge();
-    assert(edge && !edge->outputs_ready());
-    map<Edge*, Want>::iterator want_e = want_.find(edge);
-    assert(want_e != want_.end());
     if (want_e->second == kWantNothing) {
       want_e->second = kWantToStart;
       EdgeWanted(edge);
